@@ -220,7 +220,10 @@ def check_dict(case):
     conv = [list, tuple, iter, lambda r: (x for x in r)][it]
     inp = {vs[k]: conv([vs[x] for x in vals]) for k, vals in adj.items()}
     try:
-        u = adjlist.load_adj_dict(inp, C.LINK_CLASSES[case["cls"]])
+        if case["cls"] == 1 and len(case["rows"]) % 2:
+            u = adjlist.load_adj_dict(inp)          # linktype omitted: the documented default is UnDirectedEdge
+        else:
+            u = adjlist.load_adj_dict(inp, C.LINK_CLASSES[case["cls"]])
     except Exception as e:  # noqa
         raise Violation("load_adj_dict-raised", repr(e))
     order = []
@@ -292,7 +295,10 @@ def check_matrix(case):
         if as_tuples:
             u = adjmatrix.load_adj_matrix(tuple(tuple(r) for r in rows), tuple(side), C.LINK_CLASSES[case["cls"]])
         else:
-            u = adjmatrix.load_adj_matrix(rows, side, C.LINK_CLASSES[case["cls"]])
+            if case["cls"] == 0 and n % 2:
+                u = adjmatrix.load_adj_matrix(rows, side)       # linktype omitted: the documented default is DirectedEdge
+            else:
+                u = adjmatrix.load_adj_matrix(rows, side, C.LINK_CLASSES[case["cls"]])
     except Exception as e:  # noqa
         raise Violation("load_adj_matrix-raised", repr(e))
     pairs = [(i, j) for i in range(n) for j in range(n) if rows[i][j]]
